@@ -1,10 +1,12 @@
 #!/usr/bin/env python3
 """Developer aid: writes TASK.md (property text + what earlier rounds tried) into the scratch worktrees /tmp/wtN/Cnn of a
-seeding round (as generated for round 2; later rounds edit the round number, the letters read from seeded/ and the
-hint paragraph).  The worktrees are made first with:  git -C /repo worktree add --detach /tmp/wtN/Cnn HEAD"""
-import json
+seeding round.   usage: tools/seed_round_tasks.py N [hint-file]
+Makes the worktrees (git -C /repo worktree add --detach /tmp/wtN/Cnn HEAD) if they are missing; every change already filed
+under seeded/<pid>-* is listed as "already tried"; the optional hint file replaces the last paragraph of point 4."""
+import glob, json, os, subprocess, sys
+N=int(sys.argv[1]); HINT=open(sys.argv[2]).read().strip() if len(sys.argv)>2 else None
 props=[json.loads(l) for l in open('/verif/properties.jsonl')]
-T='''# Task: seed a realistic property-breaking change into zxdavb/ramses_rf (round 2)
+T='''# Task: seed a realistic property-breaking change into zxdavb/ramses_rf (round {rnd})
 
 You work ONLY inside this git worktree: `{wt}` (a scratch checkout of the library zxdavb/ramses_rf,
 Python, asyncio; sources in `src/ramses_tx` and `src/ramses_rf`, tests in `tests/`).
@@ -21,7 +23,7 @@ Holds: {quant}
 
 Code anchors: files {files}; mechanism: {mech}
 
-## Already tried in round 1 (do NOT repeat these or trivial variants of them; pick other sites/mechanisms)
+## Already tried in earlier rounds (do NOT repeat these or trivial variants of them; pick other sites/mechanisms)
 
 {tried}
 
@@ -46,10 +48,7 @@ library source (`src/…` only) such that each one:
    (loss, time-out, disconnect, exception) at a particular point, a multi-step sequence of operations,
    state carried over from an earlier operation, an unusual-but-legal input, or two cooperating sites
    that each look fine alone. Not something that ordinary use or the first packet would expose at once.
-   Prefer subtle over blatant; at least one of the two should involve state carried across operations or
-   two cooperating sites. Think about less-visited parts of the mechanism (other entry points that reach
-   the same machinery, other transports, error paths, boundary sizes, caches, defaults shared between
-   calls, ordering assumptions).
+{hint}
 
 For each change also write a **demonstration**: a small stand-alone Python program `demo_A.py` /
 `demo_B.py` (run as `PYTHONPATH={wt}/src /venv/bin/python demo_A.py`; stdlib + the library only; it
@@ -73,15 +72,23 @@ file). Verify everything yourself before you finish: pristine → demo exits 0; 
 and demo_A exits 1; same for B. If you cannot find two, deliver one and say so. Your final message:
 ≤ 15 lines summarising A and B.
 '''
+DEFAULT_HINT='''   Prefer subtle over blatant; at least one of the two should involve state carried across operations or
+   two cooperating sites. Think about less-visited parts of the mechanism (other entry points that reach
+   the same machinery, other transports, error paths, boundary sizes, caches, defaults shared between
+   calls, ordering assumptions).'''
+TT=T.replace('{hint}', (HINT or DEFAULT_HINT).replace('{','{{').replace('}','}}'))
 for p in props:
-    pid=p['id']; wt=f"/tmp/wt2/{pid}"
+    pid=p['id']; wt=f"/tmp/wt{N}/{pid}"
+    if not os.path.isdir(wt):
+        os.makedirs(os.path.dirname(wt),exist_ok=True)
+        subprocess.run(["git","-C","/repo","worktree","add","-q","--detach",wt,"HEAD"],check=True)
     a=p.get('anchors',{})
     tried=[]
-    for L in "AB":
+    for mf in sorted(glob.glob(f"/verif/seeded/{pid}-*/meta.json")):
         try:
-            m=json.load(open(f"/verif/seeded/{pid}-{L}/meta.json"))
+            m=json.load(open(mf))
             tried.append(f"* {m['summary']} (needs: {m['needs_to_manifest']})")
         except Exception: pass
-    open(f"{wt}/TASK.md","w").write(T.format(wt=wt,id=pid,title=p['title'],statement=p['statement'],quant=p['quantifier']['text'],
+    open(f"{wt}/TASK.md","w").write(TT.format(rnd=N,wt=wt,id=pid,title=p['title'],statement=p['statement'],quant=p['quantifier']['text'],
         files=', '.join(a.get('files',[])), mech=a.get('mechanism', a.get('mechanisms','')), tried="\n".join(tried)))
-print(open('/tmp/wt2/C10/TASK.md').read()[1200:2400])
+print('wrote', N)
